@@ -2215,14 +2215,10 @@ func (te *TemplateEngine) replaceVariablesSequentially(originalRunInfos []struct
 				hasChanges = true
 			}
 		} else {
-			// 变量不存在，保持原始占位符
+			// 变量不存在，保持原始占位符；占位符可能跨越多个不同样式的Run，
+			// 按原Run切分以保持每个字符的原有样式
 			varText := originalText[varStart:varEnd]
-			varRun := te.findRunForPosition(originalRunInfos, varStart)
-			if varRun != nil {
-				newRun := te.cloneRun(varRun)
-				newRun.Text.Content = varText
-				newRuns = append(newRuns, newRun)
-			}
+			newRuns = append(newRuns, te.extractRunsForSegment(originalRunInfos, varStart, varEnd, varText)...)
 		}
 
 		currentPos = varEnd
